@@ -139,6 +139,11 @@ def rule_err_map(ctx, cfg, F):
                         if len(ds_) != 1 or ds_[0][1] is None:
                             break
                         rv_ = ds_[0][2]["rv"]
+                        if rv_["r"] == "use" and rv_["a"][0].get("k") == "c" and isinstance(rv_["a"][0].get("pa"), list):
+                            # the array literal was promoted to a constant: the extractor records its elements
+                            for c_ in rv_["a"][0]["pa"]:
+                                yield ("code", c_, True)
+                            break
                         if rv_["r"] == "agg" and "array" in rv_["kind"]:
                             for a_ in rv_["a"]:
                                 if op_const(a_) is not None:
